@@ -167,7 +167,7 @@ def C12(run):
     if not broken:
         from props import gen_gate
         broken = broken + gen_gate(run, 'translator_fixed', 'gen_fixed', 'programs',
-                                   'Gen.add/sub/mulOp/divOp/mul/div/muldiv = C12.*Prog by rfl; fixed_*_is_program (lean/Props/C12Prog.lean)',
+                                   'Gen.add/sub/mulOp/divOp/mul/div/muldiv = C12.*Prog (Fixed), Gen.g* = C12.g*Prog (Guarded) by rfl; fixed_*_is_program, guarded_*_is_program (lean/Props/C12Prog.lean)',
                                    'the arithmetic methods of droop/values/fixed.py, executed symbolically, no longer return the expressions '
                                    'lean/Props/C12Prog.lean proves the model to compute')
     rng = rng_for(run)
@@ -222,6 +222,12 @@ def C12(run):
 @prop('C13')
 def C13(run):
     broken = lean_gate(run, THEOREMS['C13'])
+    if not broken:
+        from props import gen_gate
+        broken = broken + gen_gate(run, 'translator_fixed', 'gen_fixed', 'programs',
+                                   'Gen.g* = C12.g*Prog (Guarded) and Gen.* = C12.*Prog (Fixed) by rfl; guarded_*_is_program, fixed_*_is_program',
+                                   'the arithmetic methods of droop/values/guarded.py / fixed.py, executed symbolically, no longer return the '
+                                   'expressions lean/Props/C12Prog.lean proves the model to compute')
     rng = rng_for(run)
     items = gen_ops(rng, budget(run, 40000, 500000), ['guarded'])
     items += grid_ops(['guarded'], R=budget(run, 4, 8))
